@@ -68,7 +68,7 @@ type efFinding struct {
 }
 
 type EF struct {
-	sentinels map[*ssa.Global]bool
+	sentinels  map[*ssa.Global]bool
 	c          *Ctx
 	fns        []*ssa.Function
 	summary    map[*ssa.Function][]oset
